@@ -1,4 +1,5 @@
 import re
+import copy
 from ..css_abbreviation import parse as abbreviation, tokens, CSSValue, CSSProperty, FunctionCall
 from ..config import Config
 from ..list_utils import some, get_item
@@ -130,7 +131,7 @@ def resolve_as_property(node: CSSProperty, snippet: CSSSnippetProperty, config: 
         # Replace keyword alias from current abbreviation node with matched keyword
         resolve_value_keywords(node, config, snippet)
     elif snippet.value:
-        default_value = snippet.value[0]
+        default_value = copy.deepcopy(snippet.value[0])
 
         # https://github.com/emmetio/emmet/issues/558
         # We should auto-select inserted value only if there’s multiple value
@@ -241,12 +242,12 @@ def resolve_keyword(kw: str, config: Config, snippet: CSSSnippetProperty=None, m
     if snippet:
         ref = find_best_match(kw, snippet.keywords.keys(), min_score)
         if ref:
-            return snippet.keywords[ref]
+            return copy.deepcopy(snippet.keywords[ref])
 
         for dep in snippet.dependencies:
             ref = find_best_match(kw, dep.keywords.keys(), min_score)
             if ref:
-                return dep.keywords[ref]
+                return copy.deepcopy(dep.keywords[ref])
 
     ref = find_best_match(kw, config.options.get('stylesheet.keywords', []), min_score)
     if ref:
